@@ -573,4 +573,26 @@ func checkLabelEdit(r *Run, b []byte, ed []string) {
 	} else if !bytes.Equal(out, fresh) {
 		r.Fail("reencode-modified", hx(b)+fmt.Sprintf(" %q", ed), fmt.Sprintf("ToBytes=%x want %x", out, fresh))
 	}
+	// the edited value is decoded into again (a long-lived object refreshed with every renewal): the same octets
+	// first, then other octets - each time it holds what those octets say and re-encodes to exactly them
+	for _, w := range [][]byte{b, append(append([]byte{}, b...), 2, 'z', 'z', 0), b} {
+		want, err0 := rfc1035label.FromBytes(append([]byte{}, w...))
+		err := l.FromBytes(append([]byte{}, w...))
+		if (err == nil) != (err0 == nil) {
+			r.Fail("decode-into-used-value", hx(w)+fmt.Sprintf(" after %q", ed), fmt.Sprintf("decoding into a value that was decoded and edited before: error %v, into a fresh value: %v", err, err0))
+			return
+		}
+		if err != nil {
+			continue
+		}
+		if !sameStrs(l.Labels, want.Labels) {
+			r.Fail("decode-into-used-value", hx(w)+fmt.Sprintf(" after %q", ed), fmt.Sprintf("the value holds %q, the octets say %q", l.Labels, want.Labels))
+			return
+		}
+		if got := l.ToBytes(); !bytes.Equal(got, w) {
+			r.Fail("decode-into-used-value", hx(w)+fmt.Sprintf(" after %q", ed), fmt.Sprintf("ToBytes=%x after decoding %x into the value", got, w))
+			return
+		}
+		applyEdit(l, append([]string{}, ed...))
+	}
 }
